@@ -924,8 +924,8 @@ def enumerate_to_index(func):
 
 
 def sink_constant_inits(func):
-    """`x = <literal>` is moved down to just before the first later statement of its block that mentions x: the order in which
-    independent counters and flags are initialised is immaterial"""
+    """`x = <literal or empty container>` is moved down to just before the first later statement of its block that mentions x:
+    the order in which independent counters, flags and accumulators are initialised is immaterial"""
     changed = False
     params = set(_params(func))
     # a name read by an exception handler / finally clause may be needed before its first ordinary use
@@ -939,7 +939,10 @@ def sink_constant_inits(func):
         i = len(block) - 1
         while i >= 0:
             st = block[i]
-            if isinstance(st, ast.Assign) and len(st.targets) == 1 and isinstance(st.targets[0], ast.Name) and isinstance(st.value, ast.Constant) and st.targets[0].id not in params \
+            empty = isinstance(st, ast.Assign) and (isinstance(st.value, (ast.List, ast.Set)) and not st.value.elts or isinstance(st.value, ast.Dict) and not st.value.keys
+                                                    or isinstance(st.value, ast.Call) and isinstance(st.value.func, ast.Name) and st.value.func.id in ('set', 'dict', 'list')
+                                                    and not st.value.args and not st.value.keywords)
+            if isinstance(st, ast.Assign) and len(st.targets) == 1 and isinstance(st.targets[0], ast.Name) and (isinstance(st.value, ast.Constant) or empty) and st.targets[0].id not in params \
                     and st.targets[0].id not in in_handlers:
                 x = st.targets[0].id
                 j = None
@@ -951,7 +954,25 @@ def sink_constant_inits(func):
                     block.insert(j - 1, block.pop(i))
                     changed = True
             i -= 1
+        # ... and among the statements that now stand directly before that first use, the initialisations come first, in the order
+        # of their names' first use (so that a value with side effects computed between them stands next to its use)
+        for k in range(len(block) - 1, 0, -1):
+            st, prev = block[k], block[k - 1]
+            if _is_init(st, params, in_handlers) and not _is_init(prev, params, in_handlers) and isinstance(prev, ast.Assign) and len(prev.targets) == 1 \
+                    and isinstance(prev.targets[0], ast.Name) and prev.targets[0].id != st.targets[0].id \
+                    and not any(isinstance(n, ast.Name) and n.id == st.targets[0].id for n in ast.walk(prev)):
+                block[k - 1], block[k] = st, prev
+                changed = True
     return changed
+
+
+def _is_init(st, params, in_handlers):
+    if not (isinstance(st, ast.Assign) and len(st.targets) == 1 and isinstance(st.targets[0], ast.Name)):
+        return False
+    v = st.value
+    empty = (isinstance(v, (ast.List, ast.Set)) and not v.elts or isinstance(v, ast.Dict) and not v.keys
+             or isinstance(v, ast.Call) and isinstance(v.func, ast.Name) and v.func.id in ('set', 'dict', 'list') and not v.args and not v.keywords)
+    return (isinstance(v, ast.Constant) or bool(empty)) and st.targets[0].id not in params and st.targets[0].id not in in_handlers
 
 
 def loops_to_comprehensions(func):
@@ -1027,6 +1048,36 @@ def sink_into_branches(func):
     return changed
 
 
+def try_keyerror_idioms(func):
+    """`try: v = D[k] / except KeyError: v = None` is `v = D.get(k)`;
+    `try: D[k].append(x) / except KeyError: D[k] = [x]` is `D.setdefault(k, []).append(x)` (D a mapping, k and x free of side effects)"""
+    changed = False
+    for owner, block in _all_blocks(func):
+        for i, st in enumerate(block):
+            if not (isinstance(st, ast.Try) and len(st.body) == 1 and len(st.handlers) == 1 and not st.orelse and not st.finalbody and len(st.handlers[0].body) == 1
+                    and isinstance(st.handlers[0].type, ast.Name) and st.handlers[0].type.id == 'KeyError'):
+                continue
+            b, h = st.body[0], st.handlers[0].body[0]
+            new = None
+            if isinstance(b, ast.Assign) and isinstance(h, ast.Assign) and len(b.targets) == 1 and len(h.targets) == 1 and isinstance(b.targets[0], ast.Name) \
+                    and ast.dump(b.targets[0]) == ast.dump(h.targets[0]) and isinstance(b.value, ast.Subscript) and is_pure(b.value) \
+                    and isinstance(h.value, ast.Constant) and h.value.value is None:
+                new = ast.Assign(targets=b.targets, value=ast.Call(func=ast.Attribute(value=b.value.value, attr='get', ctx=ast.Load()), args=[b.value.slice], keywords=[]))
+            elif isinstance(b, ast.Expr) and isinstance(b.value, ast.Call) and isinstance(b.value.func, ast.Attribute) and b.value.func.attr == 'append' \
+                    and isinstance(b.value.func.value, ast.Subscript) and len(b.value.args) == 1 and is_pure(b.value.args[0]) and is_pure(b.value.func.value) \
+                    and isinstance(h, ast.Assign) and len(h.targets) == 1 and ast.dump(h.targets[0]).replace('Store()', 'Load()') == ast.dump(b.value.func.value) \
+                    and isinstance(h.value, ast.List) and len(h.value.elts) == 1 and ast.dump(h.value.elts[0]) == ast.dump(b.value.args[0]):
+                sub = b.value.func.value
+                sd = ast.Call(func=ast.Attribute(value=sub.value, attr='setdefault', ctx=ast.Load()), args=[sub.slice, ast.List(elts=[], ctx=ast.Load())], keywords=[])
+                new = ast.Expr(value=ast.Call(func=ast.Attribute(value=sd, attr='append', ctx=ast.Load()), args=b.value.args, keywords=[]))
+            if new is not None:
+                ast.copy_location(new, st)
+                ast.fix_missing_locations(new)
+                block[i] = new
+                changed = True
+    return changed
+
+
 def loops_to_any(func):
     """`for v in X: if P: return R` (P free of side effects, R a constant, v not used afterwards) is `if any([P for v in X]): return R`"""
     changed = False
@@ -1048,6 +1099,32 @@ def loops_to_any(func):
             ast.fix_missing_locations(new)
             block[i] = new
             changed = True
+    return changed
+
+
+def loops_to_sum(func):
+    """`t = 0` followed by `for v in X: t += E` (t a local not read in E or X, v not used afterwards) is `t = sum([E for v in X])`"""
+    changed = False
+    for owner, block in _all_blocks(func):
+        i = 0
+        while i + 1 < len(block):
+            a, lp = block[i], block[i + 1]
+            if isinstance(a, ast.Assign) and len(a.targets) == 1 and isinstance(a.targets[0], ast.Name) and isinstance(a.value, ast.Constant) and a.value.value == 0 \
+                    and type(a.value.value) is int and isinstance(lp, ast.For) and not lp.orelse and len(lp.body) == 1 and isinstance(lp.body[0], ast.AugAssign) \
+                    and isinstance(lp.body[0].op, ast.Add) and isinstance(lp.body[0].target, ast.Name) and lp.body[0].target.id == a.targets[0].id:
+                t = a.targets[0].id
+                elt = lp.body[0].value
+                tnames = {n.id for n in ast.walk(lp.target) if isinstance(n, ast.Name)}
+                reads_t = any(isinstance(n, ast.Name) and n.id == t for part in (elt, lp.iter) for n in ast.walk(part))
+                outer = [n for n in ast.walk(func) if isinstance(n, ast.Name) and n.id in tnames and not any(n is y for y in ast.walk(lp))]
+                if not reads_t and not outer:
+                    comp = ast.ListComp(elt=elt, generators=[ast.comprehension(target=lp.target, iter=lp.iter, ifs=[], is_async=0)])
+                    a.value = ast.Call(func=ast.Name(id='sum', ctx=ast.Load()), args=[comp], keywords=[])
+                    ast.fix_missing_locations(a)
+                    del block[i + 1]
+                    changed = True
+                    continue
+            i += 1
     return changed
 
 
@@ -1702,6 +1779,11 @@ def cx(e):
         if all(is_pure(c) for c in e.comparators[:-1]):
             return cx(_unchain(e))
         return '(cmp ' + cx(e.left) + ' ' + ' '.join(type(o).__name__ + ' ' + cx(c) for o, c in zip(e.ops, e.comparators)) + ')'
+    if isinstance(e, ast.Call) and isinstance(e.func, ast.Name) and e.func.id in ('min', 'max', 'tuple', 'list', 'sorted', 'set', 'frozenset', 'len', 'iter') \
+            and len(e.args) == 1 and isinstance(e.args[0], ast.Call) and isinstance(e.args[0].func, ast.Attribute) and e.args[0].func.attr == 'keys' \
+            and not e.args[0].args and not e.args[0].keywords:
+        # iterating a mapping is iterating its keys
+        return cx(ast.Call(func=e.func, args=[e.args[0].func.value], keywords=e.keywords))
     if isinstance(e, ast.Call) and isinstance(e.func, ast.Name) and e.func.id in ('sum', 'min', 'max', 'any', 'all', 'tuple', 'list', 'sorted', 'set', 'frozenset') \
             and len(e.args) == 1 and not e.keywords and isinstance(e.args[0], ast.GeneratorExp):
         # consumed completely and at once: the same as the list comprehension
@@ -1710,6 +1792,27 @@ def cx(e):
     if isinstance(e, ast.Call) and isinstance(e.func, ast.Attribute) and e.func.attr == 'join' and len(e.args) == 1 and not e.keywords and isinstance(e.args[0], ast.GeneratorExp):
         lc = ast.ListComp(elt=e.args[0].elt, generators=e.args[0].generators)
         return f'{cx(e.func)}({cx(lc)})'
+    if isinstance(e, ast.Call) and any(isinstance(a, ast.Starred) and (isinstance(a.value, ast.List) or isinstance(a.value, ast.BinOp) and isinstance(a.value.op, ast.Add)
+                                       and isinstance(a.value.left, ast.List)) for a in e.args):
+        # f(*([a, b] + rest)) is f(a, b, *rest)
+        args = []
+        for a in e.args:
+            if isinstance(a, ast.Starred) and isinstance(a.value, ast.List):
+                args.extend(a.value.elts)
+            elif isinstance(a, ast.Starred) and isinstance(a.value, ast.BinOp) and isinstance(a.value.op, ast.Add) and isinstance(a.value.left, ast.List):
+                args.extend(a.value.left.elts)
+                args.append(ast.Starred(value=a.value.right, ctx=ast.Load()))
+            else:
+                args.append(a)
+        return cx(ast.Call(func=e.func, args=args, keywords=e.keywords))
+    if isinstance(e, ast.Call) and not e.keywords and is_pure(e.func) and sum(isinstance(a, ast.IfExp) for a in e.args) == 1 \
+            and all(is_pure(a) for a in e.args if not isinstance(a, ast.IfExp)) and is_pure([a for a in e.args if isinstance(a, ast.IfExp)][0].test):
+        # f(x if c else y) is f(x) if c else f(y) when nothing else in the call has side effects
+        k = [i for i, a in enumerate(e.args) if isinstance(a, ast.IfExp)][0]
+        t = e.args[k]
+        a1 = ast.Call(func=e.func, args=e.args[:k] + [t.body] + e.args[k + 1:], keywords=[])
+        a2 = ast.Call(func=e.func, args=e.args[:k] + [t.orelse] + e.args[k + 1:], keywords=[])
+        return cx(ast.IfExp(test=t.test, body=a1, orelse=a2))
     if isinstance(e, ast.Call):
         kws = sorted((k.arg or '**', cx(k.value)) for k in e.keywords)
         return f'{cx(e.func)}(' + ','.join([cx(a) for a in e.args] + [f'{k}={v}' for k, v in kws]) + ')'
@@ -2062,6 +2165,10 @@ def _cstmt(st, budget):
         return ('break',)
     if isinstance(st, ast.Assign):
         return ('assign', tuple(cx(t) for t in st.targets), cx(st.value))
+    if isinstance(st, ast.AugAssign) and isinstance(st.op, ast.BitOr) and isinstance(st.target, ast.Name) and isinstance(st.value, ast.Call) \
+            and isinstance(st.value.func, ast.Name) and st.value.func.id == 'set' and len(st.value.args) == 1 and not st.value.keywords:
+        # s |= set(E) on a local is s.update(E)
+        return ('expr', f'{cx(st.target)}.update({cx(st.value.args[0])})')
     if isinstance(st, ast.AugAssign):
         return ('aug', type(st.op).__name__, cx(st.target), cx(st.value))
     if isinstance(st, ast.AnnAssign):
@@ -2262,13 +2369,18 @@ def canonical(func, helpers=None, consts=None, sized=None, cls_name=None, props=
             g = drop_dead_locals(f)
             h = loops_to_comprehensions(f)
             h = loops_to_any(f) or h
+            h = loops_to_sum(f) or h
+            h = try_keyerror_idioms(f) or h
             h = sink_into_branches(f) or h
             k = assignments_to_ifexp(f)
             m = return_of_assignment(f)
             n_ = enumerate_to_index(f)
             if not (a or b or c or d or e or g or h or k or m or n_):
                 break
-        sink_constant_inits(f)
+        if sink_constant_inits(f):
+            for _ in range(3):
+                if not (inline_next_use(f) | inline_temps(f)):
+                    break
         params = _params(f)
         _, stores, _ = _defs_and_uses(f)
         local_names = {n for n in stores if n not in params}
